@@ -102,6 +102,7 @@ func runC20(c *Ctx) {
 	c.Fields(r3, sv, "stored event", "router.storedEvent", nil, map[string]string{
 		"Subscription": `^%event\.Subscription$`, "Publication": `^%event\.Publication$`, "Details": `^%event\.Details$`,
 		"Arguments": `^%event\.Arguments$`, "ArgumentsKw": `^%event\.ArgumentsKw$`, "timestamp": `^call:time\.Now\(\)$`}, 1)
+	ruleLocalCopies(c, r3) // an in-process subscriber gets copies: it cannot modify the retained event
 	c.R.Floor(r3, 9)
 
 	const r4 = "C20.R4 history ring keeps the most recent limit entries"
